@@ -68,8 +68,10 @@ def cut_body(data, k, status=200, headers=None):
 
 
 class FakeS3:
-    def __init__(self, bucket, key_id, access_key, region, host, page_size=1000, fault=None, verify_sig=True, clock=None, max_skew=900):
+    def __init__(self, bucket, key_id, access_key, region, host, page_size=1000, fault=None, verify_sig=True, clock=None, max_skew=900,
+                 scheme=None):
         self.bucket, self.key_id, self.access_key, self.region, self.host = bucket, key_id, access_key, region, host
+        self.scheme = scheme       # None, or the only URL scheme the endpoint serves ('http' / 'https'); another one answers 400
         self.page_size = page_size
         self.fault = fault
         self.verify_sig = verify_sig
@@ -185,6 +187,9 @@ class FakeS3:
         body = request.content        # MockTransport has read the whole request body already
         raw_path, raw_query = self.split_raw(request)
         entry = {'method': request.method, 'raw_path': raw_path, 'raw_query': raw_query, 'op': '?', 'key': None, 'body_len': len(body)}
+        if self.scheme is not None and request.url.scheme != self.scheme:
+            entry['op'] = 'wrong-scheme'
+            return self._xml_error(400, 'InvalidRequest', 'this endpoint serves %s only' % self.scheme), entry
         if request.headers.get('host', '') != self.host:
             entry['op'] = 'wrong-host'
             return self._xml_error(400, 'InvalidRequest', 'unknown host %r' % request.headers.get('host')), entry
